@@ -474,3 +474,6 @@ func (e *Env) refund(post *World, leg *Leg, msg Msg) {
 	post.Inflight = append(post.Inflight, r.clone())
 	post.SortInflight()
 }
+
+// ParseCallData exposes the call-arguments parser used by the driver.
+func ParseCallData(data string) (string, [][]byte, error) { return argParser.ParseData(data) }
